@@ -892,13 +892,24 @@ pub fn gen_merge(rng: &mut Rng) -> MergeCase {
                     3 => *rng.pick(&[49_000u64, 50_000, 10]),
                     _ => rng.below(30),
                 };
-                let len = match rng.below(5) {
+                if rng.chance(1, 7) {
+                    // start exactly on a 50,000-base work-window line
+                    pos = (pos + 49_999) / 50_000 * 50_000;
+                }
+                let mut len = match rng.below(5) {
                     0 => 1,
                     1 => rng.range(1, 10),
                     2 => rng.range(1, 300),
                     3 => *rng.pick(&[50_000u64, 100_001, 7]),
                     _ => rng.range(1, 40),
                 };
+                if rng.chance(1, 9) {
+                    // end exactly on a window line
+                    let e = (pos + len + 49_999) / 50_000 * 50_000;
+                    if e > pos {
+                        len = e - pos;
+                    }
+                }
                 if pos + len > lens[c] as u64 {
                     break;
                 }
